@@ -207,3 +207,9 @@ func VerifSkipNonces(n int64) {
 	}
 	verifNonce += n
 }
+
+// VerifIsLowBalance reports whether err is the balance manager's cut-off error.
+func VerifIsLowBalance(err error) bool {
+	_, ok := err.(balance.LowBalanceError)
+	return ok
+}
